@@ -97,6 +97,80 @@ def install_map_models(models):
                 return True
         return False
 
+    # ---- Entry API (entry / entry_ref): Occupied = variant 0, Vacant = variant 1 (hashbrown's declaration order)
+    class EntryV:
+        ref_like = True
+
+        def __init__(self, m, key, slot):
+            self.m = m; self.key = key; self.slot = slot      # slot: the [k, v] entry if occupied
+
+        def __deepcopy__(self, memo):
+            return self
+
+    @R(r"^hashbrown::HashMap::<.*>::(entry|entry_ref)(::<.*>)?$")
+    def _entry(ex, c, a):
+        m = deref(a[0]); k = a[1]
+        ty = "EntryRef" if "entry_ref" in c else "Entry"
+        ex.prog.enums.setdefault(ty, (["Occupied", "Vacant"], [True, True], None))
+        for e in m.entries:
+            if key_eq(ex, e[0], k):
+                return EnumV(ty, 0, [EntryV(m, k, e)])
+        return EnumV(ty, 1, [EntryV(m, k, None)])
+
+    @R(r"^hashbrown::hash_map::(VacantEntry|VacantEntryRef)::<.*>::insert$|^(VacantEntry|VacantEntryRef)::<.*>::insert$")
+    def _vacant_insert(ex, c, a):
+        en = deref(a[0])
+        slot = [en.key, a[1]]
+        en.m.entries.append(slot)
+        return Ref(slot, 1)
+
+    @R(r"^hashbrown::hash_map::OccupiedEntry::<.*>::(get|get_mut|into_mut)$|^OccupiedEntry::<.*>::(get|get_mut|into_mut)$")
+    def _occ_get(ex, c, a):
+        return Ref(deref(a[0]).slot, 1)
+
+    @R(r"^hashbrown::hash_map::OccupiedEntry::<.*>::insert$|^OccupiedEntry::<.*>::insert$")
+    def _occ_insert(ex, c, a):
+        en = deref(a[0]); old = en.slot[1]; en.slot[1] = a[1]
+        return old
+
+    @R(r"^hashbrown::hash_map::OccupiedEntry::<.*>::remove$|^OccupiedEntry::<.*>::remove$")
+    def _occ_remove(ex, c, a):
+        en = deref(a[0])
+        en.m.entries[:] = [e for e in en.m.entries if e is not en.slot]
+        return en.slot[1]
+
+    @R(r"^hashbrown::hash_map::(Entry|EntryRef)::<.*>::(or_insert|or_insert_with|or_default)(::<.*>)?$|^(Entry|EntryRef)::<.*>::(or_insert|or_insert_with|or_default)(::<.*>)?$")
+    def _or_insert(ex, c, a):
+        e = deref(a[0]); en = e.fields[0]
+        if e.idx == 0:
+            return Ref(en.slot, 1)
+        if "or_insert_with" in c:
+            v = ex.call_closure(a[1], [])
+        elif "or_default" in c:
+            raise Unsupported("Entry::or_default")
+        else:
+            v = a[1]
+        slot = [en.key, v]
+        en.m.entries.append(slot)
+        return Ref(slot, 1)
+
+    @R(r"^hashbrown::HashMap::<.*>::remove(::<.*>)?$")
+    def _remove(ex, c, a):
+        m = deref(a[0]); k = a[1]
+        for i, e in enumerate(m.entries):
+            if key_eq(ex, e[0], k):
+                del m.entries[i]
+                return opt(e[1])
+        return opt(None)
+
+    @R(r"^hashbrown::HashMap::<.*>::get_mut(::<.*>)?$")
+    def _get_mut(ex, c, a):
+        return _get(ex, c, a)
+
+    @R(r"^hashbrown::HashMap::<.*>::is_empty$")
+    def _is_empty(ex, c, a):
+        return not deref(a[0]).entries
+
     @R(r"^hashbrown::HashMap::<.*>::len$")
     def _len(ex, c, a):
         return len(deref(a[0]).entries)
@@ -355,8 +429,12 @@ def native_history_check(hist):
                 if not r.startswith("Err"):
                     return True, f"{h}: rebinding in the same scope gave {r}"
             else:
-                if r != f"Ok(SymbolId({nxt}))":
+                parts = r.split("|")
+                if parts[0] != f"Ok(SymbolId({nxt}))":
                     return True, f"{h}: got {r}, expected id {nxt}"
+                want_ty = "Int" if p[0] == "bind_int" else "Qubit"
+                if len(parts) == 3 and (parts[1] != p[1] or not parts[2].startswith(want_ty)):
+                    return True, f"{h}: the table says id {nxt} denotes `{parts[1]}` of type {parts[2]}, the binding was `{p[1]}` of type {want_ty}"
                 stack[-1][p[1]] = nxt; types.append("Int" if p[0] == "bind_int" else "Qubit"); nxt += 1
         else:
             want = None
